@@ -609,6 +609,11 @@ func (d *driver) runScenario(sc *Scenario) (err error) {
 		case "idpctl":
 			d.idp.mu.Lock()
 			d.idp.discoveryOutage = st.D
+			if st.Value != "" && st.F != "" {
+				// while the next discovery document is being fetched, the Secret st.F gets the value st.Value and is reconciled
+				name, value := st.F, st.Value
+				d.idp.onDiscovery = func() { _ = d.setSecret(name, value) }
+			}
 			d.idp.mu.Unlock()
 			d.rec.emit(map[string]any{"ev": "noop", "c": "idpctl"})
 		case "keyset":
